@@ -280,7 +280,14 @@ def check_with(case, driver):
                 if case.get("run_twice"):
                     r.label("run-called-twice")
                 prior = None
-                if case.get("prior_failed_parse"):
+                if case.get("prior_ok_command"):
+                    # the same Cli object has already completed another command with other (wider) options
+                    r.label("cli-object-reused-after-successful-command")
+                    f0 = [a for a in argv_in if not a.startswith("-")][-1]
+                    if not any(ch in f0 for ch in "*?"):
+                        prior = ["-m", "Earlier", f0, "--merge", "percent_1", "number_1", "-f", "attrs", "--max-strings-literals", "1"] + \
+                            (["-i", case["format"]] if case["format"] != "json" else [])
+                elif case.get("prior_failed_parse"):
                     # the same Cli object was used before for a command that failed after its input had been loaded
                     r.label("cli-object-reused-after-failed-command")
                     prior = ["-m", "Stale", [a for a in argv_in if not a.startswith("-")][-1]] + ["--merge", "no_such_policy"]
@@ -421,7 +428,8 @@ def cases(draw, tier="quick", formats=("json", "json", "json", "yaml", "ini")):
         o["dkr"], o["dkf"] = [], []
     return {"specs": specs, "opts": o, "format": fmt, "output": draw(st.sampled_from([False, False, True])),
             "c_locale": draw(st.booleans()), "run_twice": draw(st.sampled_from([False, False, True])),
-            "prior_failed_parse": draw(st.sampled_from([False, False, False, True]))}
+            "prior_failed_parse": draw(st.sampled_from([False, False, False, True])),
+            "prior_ok_command": draw(st.sampled_from([False, False, False, True]))}
 
 
 def valid(case):
